@@ -40,6 +40,10 @@ def check(prop, tier, only):
         for g in range(groups):
             jobs.append(checks.J("h_compose", cfg, f"--part comp --group {g} --groups {groups} --depth {d}",
                                  name=f"compositions/asc/group{g}of{groups}/depth{d}[{cfg}]"))
+        # move systems: two objects of the same composition type with aligned_allocator layers of different minimum alignment,
+        # x = std::move(y) / y = std::move(x) in the alphabet, ownership oracle continues across the move
+        dm = 4 if quick else 5
+        jobs.append(checks.J("h_compose", cfg, f"--part comp --dual 1 --depth {dm}", name=f"compositions/move-assignment/depth{dm}[{cfg}]"))
         for place in ("desc", "alt"):
             groups = 1 if quick else 4
             for g in range(groups):
@@ -61,7 +65,9 @@ def check(prop, tier, only):
             "the leaf that served it, with the call shape (node/array, count, size, alignment) that leaf saw at allocation; a leaf "
             "never gets a mandatory deallocate for memory it did not serve; a real pool/stack/collection behind a leaf answers "
             "try_deallocate true for its own and false for foreign memory; when everything is released every leaf is back at full "
-            "capacity; the composable interface of a composition returns true for its own and false for an outsider pointer; every "
+            "capacity; move systems: after x = std::move(y) the memory handed out through y is released through x under the same oracle; "
+            "during a composable try_ call no leaf's throwing allocate_* is entered, nothing grows, nothing throws / terminates (C03 tags try-*); "
+            "the composable interface of a composition returns true for its own and false for an outsider pointer; every "
             "tracked_allocator layer has an instrumented Tracker: exactly one on_*_allocation per allocation served below it, exactly one "
             "on_*_deallocation per release accepted below it, none for a refused try_deallocate, balanced when everything is released. "
             "abort/crash/hang inside a contract-respecting sequence is a violation. Every violation is re-run once before it is reported.")
